@@ -363,8 +363,15 @@ class AbstractFn:
 
     def call(self, interp, args, kwargs, node):
         ex = interp.ex
+        # an abstract function is still a function: same arguments, same result (per path)
+        mkey = ('abstract', self.name, tuple(arg_key(a) for a in args))
+        if os.environ.get('PYVC_DEBUG'):
+            print('ABSTRACT-CALL', mkey, kwargs)
+        if mkey in ex.modular_memo:
+            return ex.modular_memo[mkey]
         res, _ = build_value(self.world, pick_alt(self.world, self.dom.returns),
                              ex.fresh_name(f'{self.name}.ret'))
+        ex.modular_memo[mkey] = res
         self.calls.append((tuple(args), res))
         if self.dom.ensures is not None:
             fn = self.world.spec_closure(self.dom.ensures)
@@ -591,6 +598,7 @@ class Verifier:
         sub.pipe_registry_seed = list(outer.pipe_registry)
         sub.first_choice_seed = dict(outer.first_choice)
         sub.modular_memo_seed = dict(outer.modular_memo)
+        sub.cell_reads_seed = list(outer.cell_reads)
         sub.fork_site = outer.fork_site
         sub.fork_counts = outer.fork_counts
         nbase = len(sub.base_pc)
@@ -620,6 +628,7 @@ class Verifier:
         sub.pipe_registry_seed = list(outer.pipe_registry)
         sub.first_choice_seed = dict(outer.first_choice)
         sub.modular_memo_seed = dict(outer.modular_memo)
+        sub.cell_reads_seed = list(outer.cell_reads)
         nbase = len(outer.pc)
         self.world.explorer = sub
         out = []
